@@ -800,7 +800,16 @@ func validateLeaseSet2Inputs(
 	if err := validateEncryptionKeyInputs(encryptionKeys); err != nil {
 		return err
 	}
-	return validateLeaseInputs(leases)
+	if err := validateLeaseInputs(leases); err != nil {
+		return err
+	}
+	// The remaining structural rules are the ones Validate() enforces (reserved
+	// flag bits, key length matching a known key type): what the constructor
+	// returns must pass its own validation.
+	if err := validateReservedFlagsAndLeases(flags, leases); err != nil {
+		return err
+	}
+	return validateEncryptionKeys(encryptionKeys)
 }
 
 // validateDestinationSize validates that the destination meets the minimum size requirement.
